@@ -40,6 +40,8 @@ type Ctx struct {
 	typeByKey  map[string]types.Type
 	typeCache  map[string]types.Type
 	loadErrs   []string
+	immutable  map[string]bool // heap keys ("F:pkg.T.f") of fields declared immutable
+	immutDecls []string
 }
 
 func qualifier(own *types.Package) types.Qualifier {
@@ -216,6 +218,7 @@ func (c *Ctx) loadSpecs(extra []string) error {
 					prev.NoPanicProps = unionProps(prev.NoPanicProps, fc.NoPanicProps)
 				}
 				prev.Fresh = prev.Fresh || fc.Fresh
+				prev.Boundary = prev.Boundary || fc.Boundary
 				if len(prev.Params) == 0 {
 					prev.Params = fc.Params
 				}
@@ -226,6 +229,7 @@ func (c *Ctx) loadSpecs(extra []string) error {
 				c.specFuncs[fc.SpecName] = fc
 			}
 		}
+		c.immutDecls = append(c.immutDecls, sf.Immut...)
 		c.lemmas = append(c.lemmas, sf.Lemmas...)
 		c.axioms = append(c.axioms, sf.Axioms...)
 	}
@@ -443,4 +447,91 @@ func (c *Ctx) externSig(label string) *types.Signature {
 	}
 	c.sigByLabel[label] = sig
 	return sig
+}
+
+
+// checkImmutables binds every `immutable T.f` declaration to the heap component of that field
+// and checks, over every function of the package (methods and closures included), that the
+// field is written only into an object the writing function allocated itself (a composite
+// literal or new(T) being initialised): no store through any other pointer, no whole-struct
+// overwrite of a T that is not the function's own allocation, no address of the field taken for
+// anything but a load or such a store. Returned strings are contract-binding errors.
+func (c *Ctx) checkImmutables() []string {
+	var errs []string
+	if c.immutable == nil {
+		c.immutable = map[string]bool{}
+	}
+	for _, d := range c.immutDecls {
+		parts := strings.SplitN(d, ".", 2)
+		obj := c.tpkg.Scope().Lookup(parts[0])
+		if obj == nil {
+			continue // declared for another package of this run
+		}
+		st, ok := obj.Type().Underlying().(*types.Struct)
+		if !ok {
+			errs = append(errs, "immutable "+d+": not a struct type")
+			continue
+		}
+		idx := -1
+		for i := 0; i < st.NumFields(); i++ {
+			if st.Field(i).Name() == parts[1] {
+				idx = i
+			}
+		}
+		if idx < 0 {
+			errs = append(errs, "immutable "+d+": no such field")
+			continue
+		}
+		named := types.Unalias(obj.Type())
+		c.immutable["F:"+typeKey(named)+"."+parts[1]] = true
+		ownAlloc := func(v ssa.Value) bool { _, ok := v.(*ssa.Alloc); return ok }
+		var fns []*ssa.Function
+		seen := map[*ssa.Function]bool{}
+		var add func(f *ssa.Function)
+		add = func(f *ssa.Function) {
+			if f == nil || seen[f] {
+				return
+			}
+			seen[f] = true
+			fns = append(fns, f)
+			for _, a := range f.AnonFuncs {
+				add(a)
+			}
+		}
+		for _, f := range c.fnByLabel {
+			add(f)
+		}
+		for _, f := range fns {
+			for _, b := range f.Blocks {
+				for _, in := range b.Instrs {
+					pos := c.fset.Position(in.Pos()).String()
+					switch in := in.(type) {
+					case *ssa.FieldAddr:
+						pt, ok := in.X.Type().Underlying().(*types.Pointer)
+						if !ok || !types.Identical(types.Unalias(pt.Elem()), named) || in.Field != idx {
+							continue
+						}
+						for _, r := range *in.Referrers() {
+							switch r := r.(type) {
+							case *ssa.UnOp:
+								// load
+							case *ssa.Store:
+								if r.Addr != ssa.Value(in) || !ownAlloc(in.X) {
+									errs = append(errs, fmtf("immutable %s is written in %s at %s", d, f.String(), pos))
+								}
+							case *ssa.DebugRef:
+							default:
+								errs = append(errs, fmtf("immutable %s: its address escapes in %s at %s", d, f.String(), pos))
+							}
+						}
+					case *ssa.Store:
+						if types.Identical(types.Unalias(in.Val.Type()), named) && !ownAlloc(in.Addr) {
+							errs = append(errs, fmtf("immutable %s: a whole %s is overwritten in %s at %s", d, parts[0], f.String(), pos))
+						}
+					}
+				}
+			}
+		}
+	}
+	return errs
 }
